@@ -63,6 +63,9 @@ type GeneratorOutput struct {
 	Options   GeneratorOptions  `json:"meta"`
 	SourceMap *parser.SourceMap `json:"sourceMap"`
 	Literals  []string          `json:"literals"`
+	// Skeleton is a hash of the generated Go code that excludes the contents of the
+	// string literals, see RangeWriter.Skeleton.
+	Skeleton string `json:"skeleton"`
 }
 
 type GeneratorOptions struct {
@@ -94,7 +97,16 @@ func HasChanged(previous, updated GeneratorOutput) bool {
 	if len(previous.Literals) != len(updated.Literals) {
 		return true
 	}
+	// If anything in the Go code other than the content of the literals has changed,
+	// e.g. the way an expression is escaped because it moved from an attribute to a
+	// script, we need to recompile.
+	if previous.Skeleton != updated.Skeleton {
+		return true
+	}
 	// If the Go code has changed, we need to recompile.
+	if previous.SourceMap == nil || updated.SourceMap == nil {
+		return previous.SourceMap != updated.SourceMap
+	}
 	if len(previous.SourceMap.Expressions) != len(updated.SourceMap.Expressions) {
 		return true
 	}
@@ -126,6 +138,7 @@ func Generate(template parser.TemplateFile, w io.Writer, opts ...GenerateOpt) (o
 	op.Options = g.options
 	op.SourceMap = g.sourceMap
 	op.Literals = g.w.Literals
+	op.Skeleton = g.w.Skeleton()
 	return op, nil
 }
 
@@ -189,7 +202,13 @@ func (g *generator) writeVersionComment() (err error) {
 
 func (g *generator) writeGeneratedDateComment() (err error) {
 	if g.options.GeneratedDate != "" {
-		_, err = g.w.Write("// templ: generated: " + g.options.GeneratedDate + "\n")
+		if _, err = g.w.Write("// templ: generated: "); err != nil {
+			return err
+		}
+		if _, err = g.w.WriteVolatile(g.options.GeneratedDate); err != nil {
+			return err
+		}
+		_, err = g.w.Write("\n")
 	}
 	return err
 }
@@ -942,8 +961,20 @@ func (g *generator) writeExpressionErrorHandler(indentLevel int, expression pars
 	indentLevel++
 	line := int(expression.Range.To.Line + 1)
 	col := int(expression.Range.To.Col)
-	_, err = g.w.WriteIndent(indentLevel, "return	templ.Error{Err: templ_7745c5c3_Err, FileName: "+createGoString(g.options.FileName)+", Line: "+strconv.Itoa(line)+", Col: "+strconv.Itoa(col)+"}\n")
-	if err != nil {
+	// The position is only used in the error message, so it's volatile.
+	if _, err = g.w.WriteIndent(indentLevel, "return	templ.Error{Err: templ_7745c5c3_Err, FileName: "+createGoString(g.options.FileName)+", Line: "); err != nil {
+		return err
+	}
+	if _, err = g.w.WriteVolatile(strconv.Itoa(line)); err != nil {
+		return err
+	}
+	if _, err = g.w.Write(", Col: "); err != nil {
+		return err
+	}
+	if _, err = g.w.WriteVolatile(strconv.Itoa(col)); err != nil {
+		return err
+	}
+	if _, err = g.w.Write("}\n"); err != nil {
 		return err
 	}
 	indentLevel--
